@@ -145,6 +145,10 @@ type Runner struct {
 	// the execution continues.
 	Tolerate func(Violation) bool
 
+	// OnRound, when set, is called after every completed persistence round
+	// with the prefix the store exposes (-1 if unknown) and the round kind.
+	OnRound func(k int, kind string)
+
 	// KeepOpen: leave everything open after Run (debugging tools).
 	KeepOpen bool
 
@@ -1089,11 +1093,17 @@ func (r *Runner) afterRound(pre storeCounters) {
 		}
 	}
 	if !r.O.Store {
+		if r.OnRound != nil {
+			r.OnRound(-1, kind)
+		}
 		return
 	}
 	k, tree, ok := r.storePrefix()
 	if !ok {
 		return
+	}
+	if r.OnRound != nil {
+		r.OnRound(k, kind)
 	}
 	if k < r.storeK {
 		r.viol("store", "store-went-backwards", kind, fmt.Sprintf("store exposed prefix %d after prefix %d (round kind %s)", k, r.storeK, kind))
